@@ -90,7 +90,7 @@ def c13(ck):
             c["id"] = nid
             canaries.append(nid)
             nid += 1
-            events.append(c)
+            events.insert(0, c)
         write_ndjson(tr, events)
         v = vlib.validate_trace("Trace_C13", "Trace_C13.cfg", ck.scratch, tr, shards=14, timeout=3000)
         ck.add_validation(v)
@@ -119,3 +119,161 @@ def vlib_codes(cs):
     if cs is None:
         return ""
     return "".join(chr(c) for c in cs)
+
+
+# ------------------------------------------------------------------------------------ helpers
+def stateless_check(ck, binary, scenario, module, hargs, canary_specs, keyfn, shards=14,
+                    count_nontrivial=None, sample_kinds=(), timeout=3000):
+    """Common shape: harness emits a stateless trace; canaries are corrupted copies of recorded
+    events; the trace specification validates every event."""
+    tr = ck.scratch / f"{scenario}.ndjson"
+    vlib.run_harness(binary, [scenario, "--out", tr, "--seed", ck.seed, "--tier", ck.tier] + hargs,
+                     timeout=timeout)
+    events = read_ndjson(tr)
+    by_id = {e["id"]: e for e in events}
+    nid = max(by_id) + 1
+    canaries = []
+    for kind, mut in canary_specs:
+        src = next((e for e in events if e["event"] == kind), None)
+        if src is None:
+            raise ToolError(f"no {kind} event recorded by {scenario}")
+        c = copy.deepcopy(src)
+        mut(c)
+        c["id"] = nid
+        canaries.append(nid)
+        nid += 1
+        events.insert(0, c)     # canaries first: the reject list is capped
+    write_ndjson(tr, events)
+    v = vlib.validate_trace(module, f"{module}.cfg", ck.scratch, tr, shards=shards, timeout=timeout)
+    ck.add_validation(v)
+    rej = ck.expect_canary(v["rejects"], canaries)
+    add_rejects(ck, rej, by_id, keyfn)
+    if v["nrej"] - len(canaries) > len(rej):
+        log(f"  ({v['nrej'] - len(canaries)} rejected events in total)")
+    real = [e for e in events if e["id"] not in set(canaries)]
+    sample_events(ck, real, set(sample_kinds))
+    return real
+
+
+def s_(cs):
+    return "".join(chr(c) for c in cs) if isinstance(cs, list) else str(cs)
+
+
+# ------------------------------------------------------------------------------------ C18
+TRACE_MODULE["C18"] = "Trace_C18"
+
+
+@prop("C18")
+def c18(ck):
+    binary = vlib.build_harness()
+    ck.add_tlc(vlib.mc("MC_FileMode", "MC_FileMode.cfg", ck.scratch, workers=4))
+    def bump(field):
+        return lambda e: e[field].__setitem__(7, e[field][7] ^ 1)
+    def widen(e):
+        # pretend one out-of-range integer was converted
+        e["runs"][0]["hi"] -= 1
+        e["runs"].insert(1, {"lo": e["runs"][0]["hi"] + 1, "hi": e["runs"][0]["hi"] + 1, "verdict": "ok"})
+    events = stateless_check(
+        ck, binary, "c18", "Trace_C18", [],
+        [("ModeBlock", bump("raw")), ("ModeBlock", bump("class")), ("NegBlock", bump("perms")),
+         ("CtorBlock", bump("perms")), ("I32Runs", widen)],
+        lambda e, r: f"{e['event']}:{e.get('kind','')}:{e.get('base','')}" if e else "?", shards=8)
+    runs = next(e for e in events if e["event"] == "I32Runs")["runs"]
+    ck.samples.append({"I32Runs": runs})
+    ck.samples.append({"ModeBlock base 32768 raw[0..4]": next(e for e in events if e["event"] == "ModeBlock" and e["base"] == 32768)["raw"][:4]})
+    ck.evaluations = 65536 + 32768 + 3 * 65536 + 2 ** 32
+    ck.nontrivial = 65536 + 32768 + 3 * 4096 + len(runs)
+    ck.exhaustive = True
+    ck.rule = ("complete enumeration: all 65 536 words through From<u16> and From<i32>, all in-range negative "
+               "integers, the three constructors on all 65 536 arguments, and all 2^32 integers run-length "
+               "encoded into maximal verdict intervals; distinct non-trivial = distinct words / constructor "
+               "permission classes / verdict intervals")
+    ck.finish()
+
+
+# ------------------------------------------------------------------------------------ C20
+TRACE_MODULE["C20"] = "Trace_C20"
+
+
+@prop("C20")
+def c20(ck):
+    binary = vlib.build_harness()
+    ck.add_tlc(vlib.mc("MC_Timestamp", "MC_Timestamp.cfg", ck.scratch, workers=4))
+    def flip(e):
+        e["out"] = {"kind": "Ok", "v": [0, 0]} if e["out"]["kind"] != "Ok" else {"kind": "Overflow"}
+    def off_by_one(e):
+        e["out"]["v"][1] = (e["out"]["v"][1] + 1) % 65536
+    events = stateless_check(
+        ck, binary, "c20", "Trace_C20", [],
+        [("Ts", flip)], lambda e, r: f"{e['event']}:{e.get('src')}:{e.get('off')}:{'-' if e.get('neg') else ''}{e.get('d')}:{e.get('nanos')}" if e else "?",
+        sample_kinds=("Ts", "TsPair"))
+    ts = [e for e in events if e["event"] == "Ts"]
+    ck.evaluations = len(events)
+    ck.nontrivial = len({(e["neg"], tuple(e["d"]), e["nanos"] > 0, e["src"], e["off"]) for e in ts
+                         if e["out"]["kind"] != "Ok" or e["d"][3] in (0, 32767, 32768, 65535)})
+    ck.extra["outcomes"] = {k: sum(1 for e in ts if e["out"]["kind"] == k) for k in ("Ok", "Underflow", "Overflow")}
+    ck.rule = ("every second in windows around 0, 2^31 and 2^32 with sub-second offsets 0, 1 ns, 0.5 s, "
+               "1 s - 1 ns, extremes of SystemTime and chrono, fixed offsets from -12 h to +14 h, seeded random "
+               "instants; through TryFrom<SystemTime> and TryFrom<DateTime<_>>; non-trivial = distinct "
+               "(instant, source) whose outcome is an error or lies at a 16-bit digit boundary")
+    ck.assumptions.append("instants are constructed by the harness from exact (seconds, nanoseconds) pairs via std / chrono constructors")
+    ck.finish()
+
+
+# ------------------------------------------------------------------------------------ C19
+TRACE_MODULE["C19"] = "Trace_C19"
+
+
+@prop("C19")
+def c19(ck):
+    binary = vlib.build_harness()
+    maxtok = 5 if ck.tier == "thorough" else 4
+    def flipacc(e):
+        k = next(i for i, a in enumerate(e["acc"]) if a == 1) if 1 in e["acc"] else 0
+        e["acc"][k] = 0 if e["acc"][k] == 1 else 1
+    def flipone(e):
+        e["acc"] = 0 if e["acc"] == 1 else 1
+    events = stateless_check(
+        ck, binary, "c19", "Trace_C19", ["--maxtok", maxtok, "--random", 200000 if ck.tier == "thorough" else 20000],
+        [("CapsBlock", flipacc), ("Caps", flipone)],
+        lambda e, r: (f"Caps:{s_(e['text'])}" if e["event"] == "Caps" else f"{e['event']}:{e.get('start')}") if e else "?",
+        sample_kinds=("Caps",))
+    blocks = [e for e in events if e["event"] == "CapsBlock"]
+    n = sum(len(b["acc"]) for b in blocks)
+    ck.evaluations = n + sum(1 for e in events if e["event"] == "Caps")
+    ck.nontrivial = sum(1 for b in blocks for a in b["acc"] if a == 1) + len({tuple(e["text"]) for e in events if e["event"] == "Caps" and e["acc"] == 1})
+    ck.extra["accepted_in_domain"] = sum(1 for b in blocks for a in b["acc"] if a == 1)
+    ck.extra["domain"] = f"all strings of <= {maxtok} tokens over the 13-token alphabet ({n} strings, complete)"
+    ck.rule = ("complete bounded domain over {cap_chown, CAP_KILL, all, cap_bogus, ',', '=', '+', '-', e, i, p, x, ' '} "
+               "plus seeded longer strings over all 41 names; each text goes through FileCaps::from_str, "
+               "FileCaps::new and FileOptions::caps; non-trivial = distinct accepted texts")
+    ck.assumptions.append("a comma list mixing 'all' with other names is a don't-care (statement ambiguous)")
+    ck.finish()
+
+
+# ------------------------------------------------------------------------------------ C15
+TRACE_MODULE["C15"] = "Trace_C15"
+
+
+@prop("C15")
+def c15(ck):
+    binary = vlib.build_harness()
+    thorough = ck.tier == "thorough"
+    ck.add_tlc(vlib.mc("MC_Evr", "MC_Evr_thorough.cfg" if thorough else "MC_Evr_quick.cfg", ck.scratch, workers=8, timeout=3000))
+    def bad_parse(e):
+        e["parsed"]["n"] = e["parsed"]["n"] + [45]
+    def bad_text(e):
+        e["text"] = e["text"][:-1]
+    events = stateless_check(
+        ck, binary, "c15", "Trace_C15", ["--namelen", 3 if thorough else 2, "--random", 200000 if thorough else 20000],
+        [("NevraRT", bad_parse), ("EvrRT", bad_text)],
+        lambda e, r: (f"{e['event']}:{s_(e.get('text', e.get('op','')))}") if e else "?",
+        sample_kinds=("NevraRT", "EvrRT", "CtRT"))
+    rt = [e for e in events if e["event"] in ("NevraRT", "EvrRT")]
+    ck.evaluations = len(events)
+    ck.nontrivial = len({tuple(e["text"]) for e in rt if 45 in e["x"].get("n", []) or e["x"]["e"]})
+    ck.rule = ("all NEVRA tuples with name <= 2 (3 thorough) over {a,1,-,.}, epoch in {'',0,7,12}, version <= 2 over "
+               "{1,.,a,~,^}, release <= 2 over {1,.,a}, arch in {x,x86_64,noarch}; the asset NEVRAs; all five "
+               "compression types; seeded arbitrary strings for the no-panic part; non-trivial = distinct texts "
+               "whose name contains '-' or which carry an epoch")
+    ck.finish()
